@@ -360,12 +360,12 @@ func c16Pubsub(c *vf.Ctx) {
 			}()
 			defer func() { close(stop); pubWG.Wait(); snd.Close() }()
 			// wait until gossip announcements actually flow into the receiver
-			deadline := time.Now().Add(15 * time.Second)
+			deadline := time.Now().Add(45 * time.Second)
 			for len(col.snapshot()) < 2 && time.Now().Before(deadline) {
 				time.Sleep(5 * time.Millisecond)
 			}
 			if len(col.snapshot()) < 2 {
-				c.Inconclusive(sub, i, "mesh-not-formed", "no gossip announcement reached the receiver within 15 s", nil)
+				c.Inconclusive(sub, i, "mesh-not-formed", "no gossip announcement reached the receiver within 45 s", nil)
 				rc.Close()
 				return
 			}
